@@ -46,9 +46,9 @@ def gen_cases(rng, tier):
         r = rng.choice([rng.uniform(1, 9), rng.uniform(1, 60), 1 + rng.random() * 1e-9, float(rng.randrange(1, 9))])
         add(rng.choice(kinds), n, rng.choice([None, None, n, rng.randrange(0, n + 5)]), bits(r), True, None)
     # adversarial n_splits pairs: n / (n / s) rounds up
-    for _ in range(120 if not big else 500):
-        n = rng.randrange(1, 3000 if not big else 60000)
-        s = rng.randrange(1, min(n, 120 if not big else 400) + 2)
+    for _ in range(120 if not big else 400):
+        n = rng.randrange(1, 3000 if not big else 12000)
+        s = rng.randrange(1, min(n, 120 if not big else 300) + 2)
         add('list', n, rng.choice([None, n]), None, False, s)
     # generators without a length: chunk_size required; n_splits alone must raise
     for n in (0, 1, 7):
@@ -147,7 +147,7 @@ def run(ctx):
     if proof['ok'] or not proof['gen'].get('GenChunk'):
         try:
             pre = "From Coq Require Import ZArith List Bool.\nFrom Mpv Require Import ChunkCases.\nImport ListNotations.\nOpen Scope Z_scope."
-            vals = coq_eval('c14', pre, [coq_term(c) for c in cases], jobs=12)
+            vals = coq_eval('c14', pre, [coq_term(c) for c in cases], jobs=12, timeout=600 if ctx['tier'] == 'quick' else 2400)
             for c, r, v in zip(cases, impl, vals):
                 got = zlist(v)
                 want = r['lens']
